@@ -52,12 +52,17 @@ type Result struct {
 	StartLine   int
 	EndLine     int
 	NumTopStmts int
-	// second slice: the Quai->Qi conversion branch of (*StateProcessor).Process
-	MintBody      string
-	MintFreeVars  []string
-	MintShape     []string
-	MintStartLine int
-	MintEndLine   int
+	// slices of (*StateProcessor).Process (destination branches)
+	Blocks []Block
+}
+
+type Block struct {
+	Name, What string
+	Body       string
+	FreeVars   []string
+	Shape      []string
+	StartLine  int
+	EndLine    int
 }
 
 // reviewed table: free variable of the sliced text -> parameter type
@@ -470,8 +475,11 @@ var mintParamTypes = map[string]string{
 	"batch":               "ethdb.Batch",
 	"supplyAddedQi":       "*big.Int",
 	"utxosCreatedDeleted": "*UtxosCreatedDeleted",
+	"sender":              "common.Address",
+	"to":                  "*common.Address",
+	"statedb":             "*state.StateDB",
 }
-var mintParamOrder = []string{"p", "block", "nodeCtx", "etx", "tx", "gp", "usedGas", "batch", "supplyAddedQi", "utxosCreatedDeleted"}
+var mintParamOrder = []string{"p", "block", "nodeCtx", "etx", "tx", "gp", "usedGas", "batch", "supplyAddedQi", "utxosCreatedDeleted", "sender", "to", "statedb"}
 
 // free variables that are accumulators of Process: declared as locals and handed back
 var mintLocals = []struct{ name, typ, field string }{
@@ -479,6 +487,13 @@ var mintLocals = []struct{ name, typ, field string }{
 	{"receipts", "types.Receipts", "Receipts"},
 	{"allLogs", "[]*types.Log", "AllLogs"},
 	{"totalEtxGas", "uint64", "TotalEtxGas"},
+}
+
+// the three inline destination branches of Process that are sliced
+var processSpecs = []struct{ Name, Func, Cond, MustCall, What string }{
+	{"mint", "VerifMintQuaiToQi", "etx.ETXSender().Location().Equal(*etx.To().Location())", "FindMinDenominations", "Quai->Qi conversion branch (lock + mint loop)"},
+	{"revert_qi", "VerifRevertToQi", "sender.IsInQiLedgerScope() && to.IsInQuaiLedgerScope()", "FindMinDenominations", "ConversionRevert branch refunding Qi"},
+	{"revert_quai", "VerifRevertToQuai", "sender.IsInQuaiLedgerScope() && to.IsInQiLedgerScope()", "AddBalance", "ConversionRevert branch refunding Quai"},
 }
 
 type mintOut struct {
@@ -533,86 +548,11 @@ func sliceMint(repo string, res *Result) (*mintOut, error) {
 		cfg.Fprint(&b, token.NewFileSet(), n)
 		return strings.Join(strings.Fields(b.String()), " ")
 	}
-	const wantCond = "etx.ETXSender().Location().Equal(*etx.To().Location())"
-	var found []*ast.IfStmt
-	ast.Inspect(fn.Body, func(n ast.Node) bool {
-		is, ok := n.(*ast.IfStmt)
-		if !ok || pr(is.Cond) != wantCond {
-			return true
-		}
-		calls := false
-		ast.Inspect(is.Body, func(m ast.Node) bool {
-			if c, ok := m.(*ast.CallExpr); ok && isSel(c.Fun, "misc", "FindMinDenominations") {
-				calls = true
-			}
-			return true
-		})
-		if calls {
-			found = append(found, is)
-		}
-		return true
-	})
-	if len(found) == 0 {
-		return nil, fmt.Errorf("anchor not found: no `if %s { ... misc.FindMinDenominations ... }` in (*StateProcessor).Process", wantCond)
-	}
-	if len(found) > 1 {
-		return nil, fmt.Errorf("anchor ambiguous: %d Quai->Qi conversion branches in (*StateProcessor).Process", len(found))
-	}
-	stmts := found[0].Body.List
-	if len(stmts) == 0 {
-		return nil, fmt.Errorf("anchor changed: empty Quai->Qi conversion branch")
-	}
-	lo, hi := stmts[0].Pos(), stmts[len(stmts)-1].End()
-	body := string(src[fset.Position(lo).Offset:fset.Position(hi).Offset])
-
-	free := map[string]bool{}
-	usedPkgs := map[string]bool{}
-	selectorSel := map[*ast.Ident]bool{}
-	for _, s := range stmts {
-		ast.Inspect(s, func(m ast.Node) bool {
-			if x, ok := m.(*ast.SelectorExpr); ok {
-				selectorSel[x.Sel] = true
-			}
-			return true
-		})
-	}
-	for _, s := range stmts {
-		ast.Inspect(s, func(m ast.Node) bool {
-			id, ok := m.(*ast.Ident)
-			if !ok || selectorSel[id] || id.Name == "_" {
-				return true
-			}
-			if id.Obj == nil {
-				if _, isImp := imports[id.Name]; isImp {
-					usedPkgs[id.Name] = true
-				}
-				return true
-			}
-			dp := id.Obj.Pos()
-			if (dp < lo || dp >= hi) && dp >= fn.Pos() && dp < fn.End() {
-				free[id.Name] = true
-			}
-			return true
-		})
-	}
-	var frees []string
-	for v := range free {
-		frees = append(frees, v)
-	}
-	sort.Strings(frees)
-	isLocal := map[string]bool{}
-	for _, l := range mintLocals {
-		isLocal[l.name] = true
-	}
-	for _, v := range frees {
-		if _, ok := mintParamTypes[v]; !ok && !isLocal[v] {
-			return nil, fmt.Errorf("the Quai->Qi conversion branch of Process has a new free variable %q: the reviewed parameter table of harness/cmd/c20/slicer does not know its type", v)
-		}
-	}
 	// result list of Process, verbatim, with names so that the trailing bare return is legal
 	if fn.Type.Results == nil {
 		return nil, fmt.Errorf("anchor changed: Process has no results")
 	}
+	usedPkgs := map[string]bool{}
 	var results []string
 	for i, f := range fn.Type.Results.List {
 		if len(f.Names) != 0 {
@@ -629,9 +569,128 @@ func sliceMint(repo string, res *Result) (*mintOut, error) {
 			}
 			return true
 		})
-		_ = i
 	}
-	for _, n := range []string{"types", "ethdb", "big", "params", "log"} {
+	isLocal := map[string]bool{}
+	for _, l := range mintLocals {
+		isLocal[l.name] = true
+	}
+	var g strings.Builder
+	g.WriteString("// ---- slices of (*StateProcessor).Process ----\n\n")
+	g.WriteString("func NewVerifC20StateProcessor(config *params.ChainConfig, logger *log.Logger) *StateProcessor {\n\treturn &StateProcessor{config: config, logger: logger}\n}\n\n")
+	g.WriteString("type VerifC20MintOut struct {\n\tReached bool\n")
+	for _, l := range mintLocals {
+		if l.field != "" {
+			fmt.Fprintf(&g, "\t%s %s\n", l.field, l.typ)
+		}
+	}
+	g.WriteString("}\n\n")
+
+	for _, spec := range processSpecs {
+		var found []*ast.IfStmt
+		ast.Inspect(fn.Body, func(n ast.Node) bool {
+			is, ok := n.(*ast.IfStmt)
+			if !ok || pr(is.Cond) != spec.Cond {
+				return true
+			}
+			calls := false
+			ast.Inspect(is.Body, func(m ast.Node) bool {
+				if c, ok := m.(*ast.CallExpr); ok {
+					if se, ok := c.Fun.(*ast.SelectorExpr); ok && se.Sel.Name == spec.MustCall {
+						calls = true
+					}
+				}
+				return true
+			})
+			if calls {
+				found = append(found, is)
+			}
+			return true
+		})
+		if len(found) == 0 {
+			return nil, fmt.Errorf("anchor not found: no `if %s { ... %s(...) ... }` in (*StateProcessor).Process (%s)", spec.Cond, spec.MustCall, spec.What)
+		}
+		if len(found) > 1 {
+			return nil, fmt.Errorf("anchor ambiguous: %d candidates for the %s in (*StateProcessor).Process", len(found), spec.What)
+		}
+		stmts := found[0].Body.List
+		if len(stmts) == 0 {
+			return nil, fmt.Errorf("anchor changed: empty %s", spec.What)
+		}
+		lo, hi := stmts[0].Pos(), stmts[len(stmts)-1].End()
+		body := string(src[fset.Position(lo).Offset:fset.Position(hi).Offset])
+
+		free := map[string]bool{}
+		selectorSel := map[*ast.Ident]bool{}
+		for _, st := range stmts {
+			ast.Inspect(st, func(m ast.Node) bool {
+				if x, ok := m.(*ast.SelectorExpr); ok {
+					selectorSel[x.Sel] = true
+				}
+				return true
+			})
+		}
+		for _, st := range stmts {
+			ast.Inspect(st, func(m ast.Node) bool {
+				id, ok := m.(*ast.Ident)
+				if !ok || selectorSel[id] || id.Name == "_" {
+					return true
+				}
+				if id.Obj == nil {
+					if _, isImp := imports[id.Name]; isImp {
+						usedPkgs[id.Name] = true
+					}
+					return true
+				}
+				dp := id.Obj.Pos()
+				if (dp < lo || dp >= hi) && dp >= fn.Pos() && dp < fn.End() {
+					free[id.Name] = true
+				}
+				return true
+			})
+		}
+		var frees []string
+		for v := range free {
+			frees = append(frees, v)
+		}
+		sort.Strings(frees)
+		for _, v := range frees {
+			if _, ok := mintParamTypes[v]; !ok && !isLocal[v] {
+				return nil, fmt.Errorf("the %s of Process has a new free variable %q: the reviewed parameter table of harness/cmd/c20/slicer does not know its type", spec.What, v)
+			}
+		}
+		fmt.Fprintf(&g, "// %s\nfunc %s(", spec.What, spec.Func)
+		for _, p := range mintParamOrder {
+			fmt.Fprintf(&g, "%s %s, ", p, mintParamTypes[p])
+		}
+		g.WriteString("verifOut *VerifC20MintOut) (" + strings.Join(results, ", ") + ") {\n")
+		for _, p := range mintParamOrder {
+			if !free[p] {
+				fmt.Fprintf(&g, "\t_ = %s\n", p)
+			}
+		}
+		for _, l := range mintLocals {
+			if free[l.name] {
+				fmt.Fprintf(&g, "\tvar %s %s\n\t_ = %s\n", l.name, l.typ, l.name)
+			}
+		}
+		g.WriteString("\tfor verifOnce := true; verifOnce; verifOnce = false {\n")
+		g.WriteString("\t\t// ---- begin verbatim text of core/state_processor.go ----\n")
+		fmt.Fprintf(&g, "//line %s:%d\n", path, fset.Position(lo).Line)
+		g.WriteString("\t\t\t\t\t")
+		g.WriteString(body)
+		g.WriteString("\n//line verif_c20_sliced_gen.go:2000\n")
+		g.WriteString("\t\t// ---- end verbatim text ----\n\t}\n")
+		g.WriteString("\tverifOut.Reached = true\n")
+		for _, l := range mintLocals {
+			if l.field != "" && free[l.name] {
+				fmt.Fprintf(&g, "\tverifOut.%s = %s\n", l.field, l.name)
+			}
+		}
+		g.WriteString("\treturn\n}\n\n")
+		res.Blocks = append(res.Blocks, Block{Name: spec.Name, What: spec.What, Body: body, FreeVars: frees, Shape: shape(fset, stmts),
+			StartLine: fset.Position(lo).Line, EndLine: fset.Position(hi).Line})
+	}
+	for _, n := range []string{"types", "ethdb", "big", "params", "log", "state", "common"} {
 		usedPkgs[n] = true
 	}
 	out := &mintOut{}
@@ -646,7 +705,7 @@ func sliceMint(repo string, res *Result) (*mintOut, error) {
 			if n == "big" {
 				p = "math/big"
 			} else {
-				return nil, fmt.Errorf("generated mint function needs package %q which core/state_processor.go does not import", n)
+				return nil, fmt.Errorf("generated functions need package %q which core/state_processor.go does not import", n)
 			}
 		}
 		if filepath.Base(p) == n {
@@ -655,51 +714,7 @@ func sliceMint(repo string, res *Result) (*mintOut, error) {
 			out.imports = append(out.imports, fmt.Sprintf("\t%s %q\n", n, p))
 		}
 	}
-	var g strings.Builder
-	g.WriteString("// ---- second slice: Quai->Qi conversion branch of (*StateProcessor).Process ----\n\n")
-	g.WriteString("func NewVerifC20StateProcessor(config *params.ChainConfig, logger *log.Logger) *StateProcessor {\n\treturn &StateProcessor{config: config, logger: logger}\n}\n\n")
-	g.WriteString("type VerifC20MintOut struct {\n\tReached bool\n")
-	for _, l := range mintLocals {
-		if l.field != "" {
-			fmt.Fprintf(&g, "\t%s %s\n", l.field, l.typ)
-		}
-	}
-	g.WriteString("}\n\n")
-	g.WriteString("func VerifMintQuaiToQi(")
-	for _, p := range mintParamOrder {
-		fmt.Fprintf(&g, "%s %s, ", p, mintParamTypes[p])
-	}
-	g.WriteString("verifOut *VerifC20MintOut) (" + strings.Join(results, ", ") + ") {\n")
-	for _, p := range mintParamOrder {
-		if !free[p] {
-			fmt.Fprintf(&g, "\t_ = %s\n", p)
-		}
-	}
-	for _, l := range mintLocals {
-		if free[l.name] {
-			fmt.Fprintf(&g, "\tvar %s %s\n\t_ = %s\n", l.name, l.typ, l.name)
-		}
-	}
-	g.WriteString("\tfor verifOnce := true; verifOnce; verifOnce = false {\n")
-	g.WriteString("\t\t// ---- begin verbatim text of core/state_processor.go ----\n")
-	fmt.Fprintf(&g, "//line %s:%d\n", path, fset.Position(lo).Line)
-	g.WriteString("\t\t\t\t\t")
-	g.WriteString(body)
-	g.WriteString("\n//line verif_c20_sliced_gen.go:2000\n")
-	g.WriteString("\t\t// ---- end verbatim text ----\n\t}\n")
-	g.WriteString("\tverifOut.Reached = true\n")
-	for _, l := range mintLocals {
-		if l.field != "" && free[l.name] {
-			fmt.Fprintf(&g, "\tverifOut.%s = %s\n", l.field, l.name)
-		}
-	}
-	g.WriteString("\treturn\n}\n")
 	out.code = g.String()
-	res.MintBody = body
-	res.MintFreeVars = frees
-	res.MintShape = shape(fset, stmts)
-	res.MintStartLine = fset.Position(lo).Line
-	res.MintEndLine = fset.Position(hi).Line
 	return out, nil
 }
 
